@@ -55,6 +55,13 @@ TX == <<3, 0, 7, 7, 0>>
 TY == <<3, 0, 0, 6, 6>>
 NTarget == 5
 Targets == 1..NTarget
+\* target grid (turning bands, migration point -> grid): 3 x 3 nodes, origin (0,0), mesh (GDX2/2, GDY2/2)
+GNX == 3
+GDX2 == 7
+GDY2 == 6
+Nodes == 1..(GNX * GNX)
+NodeIX(g) == (g - 1) % GNX
+NodeIY(g) == (g - 1) \div GNX
 NMaxi == 2           \* moving neighbourhood: at most 2 samples, radius larger than the field
 LagW == 2            \* variogram: omnidirectional, lag width 2, NLag lags, tolerance 1/2 lag
 NLag == 4
@@ -62,6 +69,13 @@ NLag == 4
 Sq(x) == x * x
 D2SS(a, b) == Sq(SX[a] - SX[b]) + Sq(SY[a] - SY[b])
 D2ST(a, t) == Sq(SX[a] - TX[t]) + Sq(SY[a] - TY[t])
+
+\* squared distance (x4) between a sample and a grid node; the node whose cell holds the sample
+D2SG(a, g) == Sq(2 * SX[a] - NodeIX(g) * GDX2) + Sq(2 * SY[a] - NodeIY(g) * GDY2)
+CellOf(a) == CHOOSE g \in Nodes : \A h \in Nodes : D2SG(a, g) <= D2SG(a, h)
+ASSUME \A a \in Ids : \A g, h \in Nodes : g # h /\ D2SG(a, g) <= D2SG(a, h) /\ g = CellOf(a) => D2SG(a, g) < D2SG(a, h)
+ASSUME \A g \in Nodes : \A a, b \in Ids : a # b => D2SG(a, g) # D2SG(b, g)
+ASSUME \A a, b \in Ids : a # b => CellOf(a) # CellOf(b)
 
 \* the geometry is free of ties and of lag-boundary distances (C05 says nothing about those)
 ASSUME \A t \in Targets : \A a, b \in Ids : a # b => D2ST(a, t) # D2ST(b, t)
@@ -192,6 +206,22 @@ MigrateBallSrc(S, t) == IF {i \in DOMAIN S : S[i].c} # {} THEN NearestOf(S, {i \
 \* declared: nearest usable sample for the migrated variable (variable 1)
 DeclMigrateSrc(S, t) == NearestOf(S, {i \in DOMAIN S : UsableDatum(S[i], 1, {"c"})}, t)
 
+\* migrate point -> grid without filling (_migratePointToGrid): every located active sample with a defined value
+\* is assigned to the node of its cell (one sample per cell in this geometry)
+GridAssign(S, P(_)) == [g \in Nodes |-> IF \E i \in DOMAIN S : P(i) /\ CellOf(S[i].id) = g
+                                      THEN CHOOSE i \in DOMAIN S : P(i) /\ CellOf(S[i].id) = g ELSE 0]
+MigrateGrid(S)     == GridAssign(S, LAMBDA i : IsActive(S[i]) /\ S[i].c /\ S[i].z[1])
+DeclMigrateGrid(S) == GridAssign(S, LAMBDA i : UsableDatum(S[i], 1, {"c"}))
+\* ... with filling (expandPointToGrid): nearest usable sample of every node.  The code ranks the COMPRESSED list of
+\* the active samples with a defined value, then uses these ranks as row numbers of the Db (coordinates and value
+\* are read at row rank): right only when the compressed list is the list of the first rows
+NearestToNode(S, A, g) == IF A = {} THEN 0 ELSE CHOOSE i \in A : \A j \in A : D2SG(S[i].id, g) <= D2SG(S[j].id, g)
+FillList(S) == Idx(S, LAMBDA i : IsActive(S[i]) /\ S[i].z[1])
+MigrateFill(S) == IF FillList(S) = [k \in 1..Len(FillList(S)) |-> k] /\ \A k \in DOMAIN FillList(S) : S[k].c
+                  THEN [g \in Nodes |-> NearestToNode(S, Range(FillList(S)), g)]
+                  ELSE [g \in Nodes |-> -1]
+DeclMigrateFill(S) == [g \in Nodes |-> NearestToNode(S, {i \in DOMAIN S : UsableDatum(S[i], 1, {"c"})}, g)]
+
 \* conditional turning bands: the band extents (_minmax) span every ACTIVE data sample, read
 \* through its coordinates whether they are defined or not
 SimExtentUndefined(S) == \E i \in DOMAIN S : IsActive(S[i]) /\ ~S[i].c
@@ -219,7 +249,7 @@ KNeeds == IF HasF THEN {"c", "f"} ELSE {"c"}      \* what kriging reads of a sam
 
 OpNames == <<"krig_u", "krig_m", "krig_mb", "neigh_u", "neigh_m", "neigh_mb", "xvalid_u", "xvalid_m",
              "vario", "stat", "stat_iso", "cov", "cov_sym", "drift", "simtub", "simtub_pt", "migrate",
-             "migrate_ball", "reduce">>
+             "migrate_ball", "migrate_grid", "migrate_fill", "reduce">>
 Ops == Range(OpNames)
 
 \* fields read besides the values = which Reduce the operation is compared with
@@ -232,7 +262,7 @@ NeedsOf(op) ==
     [] op = "cov" -> {"c"}
     [] op = "cov_sym" -> {"c", "v"}
     [] op = "drift" -> {"c", "f", "v"}
-    [] op \in {"migrate", "migrate_ball"} -> {"c"}
+    [] op \in {"migrate", "migrate_ball", "migrate_grid", "migrate_fill"} -> {"c"}
     [] op = "reduce" -> {"anyrow"}
 
 \* shape: "data" = sequence of <<position, variable>>, "idx" = sequence of positions, "t..." = one per target,
@@ -243,7 +273,7 @@ KindOf(op) ==
     [] op = "neigh_u" -> "idx"
     [] op = "reduce" -> "rows5"
     [] op \in {"neigh_m", "neigh_mb"} -> "tidx"
-    [] op \in {"migrate", "migrate_ball"} -> "tsrc"
+    [] op \in {"migrate", "migrate_ball", "migrate_grid", "migrate_fill"} -> "tsrc"
     [] op = "vario" -> "count"
     [] op = "simtub_pt" -> "datasrc"
 
@@ -261,6 +291,8 @@ DeclOf(op, S) ==
     [] op = "cov_sym" -> DeclData(S, {"c", "v"})
     [] op = "drift" -> DeclData(S, {"c", "f", "v"})
     [] op \in {"migrate", "migrate_ball"} -> [t \in Targets |-> DeclMigrateSrc(S, t)]
+    [] op = "migrate_grid" -> DeclMigrateGrid(S)
+    [] op = "migrate_fill" -> DeclMigrateFill(S)
     [] op = "reduce" -> DeclRows(S)
     [] op = "simtub_pt" -> <<DeclData(S, KNeeds), [t \in Targets |-> [w \in Vars |-> 0]]>>   \* no target coincides with a datum
 
@@ -283,6 +315,8 @@ CodeOf(op, S) ==
     [] op = "drift" -> RanksData(S, TRUE)
     [] op = "migrate" -> [t \in Targets |-> MigrateSrc(S, t)]
     [] op = "migrate_ball" -> [t \in Targets |-> MigrateBallSrc(S, t)]
+    [] op = "migrate_grid" -> MigrateGrid(S)
+    [] op = "migrate_fill" -> MigrateFill(S)
     [] op = "reduce" -> RowReaders(S)
     [] op = "simtub_pt" -> <<IF SimExtentUndefined(S) THEN HangMark ELSE FlagDefine(S, NbUnique(S)),
                              [t \in Targets |-> SimPointCopy(S, t)]>>
@@ -295,7 +329,7 @@ ToId(op, S, x) ==
     [] KindOf(op) = "tdata" -> [t \in Targets |-> PairsToId(S, x[t])]
     [] KindOf(op) = "idx"   -> IdxToId(S, x)
     [] KindOf(op) = "tidx"  -> [t \in Targets |-> IdxToId(S, x[t])]
-    [] KindOf(op) = "tsrc"  -> [t \in Targets |-> IF x[t] = 0 THEN 0 ELSE S[x[t]].id]
+    [] KindOf(op) = "tsrc"  -> [t \in DOMAIN x |-> IF x[t] <= 0 THEN x[t] ELSE S[x[t]].id]
     [] KindOf(op) = "count" -> x
     [] KindOf(op) = "rows5" -> <<IdxToId(S, x[1]), x[2], IdxToId(S, x[3]), IdxToId(S, x[4]), IdxToId(S, x[5])>>
     [] KindOf(op) = "datasrc" -> <<PairsToId(S, x[1]),
@@ -368,6 +402,8 @@ ModelDeviation(op, S) ==
   \/ op = "xvalid_u" /\ (ft.coord_na \/ ft.f_na)
        \* D9 unique-neighbourhood cross-validation addresses the inverse matrix by the rank among active isotopic
        \*    samples although _flagDefine also removed the samples without coordinates / external drift
+  \/ op = "migrate_fill" /\ (ft.sel_off \/ ft.zall_na \/ ft.hetero \/ ft.coord_na)
+       \* D10 expandPointToGrid uses ranks of the compressed list of usable samples as row numbers of the Db
   \/ op = "simtub_pt"
        \* D8 point targets: target t is overwritten with the value of data ROW t (index of the output Db used
        \*    in the input Db), so the result depends on the row numbers, which masked samples shift
